@@ -11,13 +11,17 @@ package main
 
 import (
 	"bufio"
+	"bytes"
 	"encoding/json"
 	"flag"
 	"fmt"
+	"io"
 	"os"
+	"os/exec"
 	"runtime/debug"
 	"sort"
 	"strings"
+	"time"
 )
 
 type Suite struct {
@@ -26,6 +30,10 @@ type Suite struct {
 	Gen func(g *Gen)
 	// Exec runs one case (args = fields after the suite name) on the implementation.
 	Exec func(args []string) string
+	// Isolated suites execute their cases in a child process: a panic in a goroutine started by gws kills
+	// the whole process, and several properties are precisely about that. A dead child is an observation
+	// ("HARNESS-CRASH …") like any other and the parent carries on with a fresh child.
+	Isolated bool
 }
 
 var suites = map[string]*Suite{}
@@ -77,6 +85,81 @@ func execLine(line string) (out string) {
 	return s.Exec(fields[1:])
 }
 
+// childExec runs `verifharness exec` as a child and feeds it one case line at a time.
+type childExec struct {
+	cmd    *exec.Cmd
+	stdin  io.WriteCloser
+	stdout *bufio.Reader
+	stderr *bytes.Buffer
+}
+
+func (c *childExec) start() error {
+	c.cmd = exec.Command(os.Args[0], "exec")
+	c.cmd.Env = append(os.Environ(), "VERIF_CHILD=1")
+	var err error
+	if c.stdin, err = c.cmd.StdinPipe(); err != nil {
+		return err
+	}
+	out, err := c.cmd.StdoutPipe()
+	if err != nil {
+		return err
+	}
+	c.stdout = bufio.NewReaderSize(out, 1<<20)
+	c.stderr = &bytes.Buffer{}
+	c.cmd.Stderr = c.stderr
+	return c.cmd.Start()
+}
+
+func (c *childExec) stop() {
+	if c.cmd != nil && c.cmd.Process != nil {
+		_ = c.stdin.Close()
+		_ = c.cmd.Process.Kill()
+		_, _ = c.cmd.Process.Wait()
+	}
+	c.cmd = nil
+}
+
+func (c *childExec) exec(line string) string {
+	if c.cmd == nil {
+		if err := c.start(); err != nil {
+			return "HARNESS-CHILD-START-FAILED"
+		}
+	}
+	type res struct {
+		s   string
+		err error
+	}
+	ch := make(chan res, 1)
+	go func() {
+		if _, err := io.WriteString(c.stdin, line+"\n"); err != nil {
+			ch <- res{"", err}
+			return
+		}
+		s, err := c.stdout.ReadString('\n')
+		ch <- res{strings.TrimRight(s, "\n"), err}
+	}()
+	select {
+	case r := <-ch:
+		if r.err != nil {
+			// the child died: name the crash by the first panic/fatal line on its stderr
+			_ = c.cmd.Wait()
+			msg := "exit"
+			for _, l := range strings.Split(c.stderr.String(), "\n") {
+				if strings.HasPrefix(l, "panic:") || strings.HasPrefix(l, "fatal error:") {
+					msg = strings.Join(strings.Fields(l), "_")
+					break
+				}
+			}
+			c.cmd = nil
+			return "HARNESS-CRASH " + msg
+		}
+		return r.s
+	case <-time.After(180 * time.Second):
+		c.stop()
+		return "HARNESS-TIMEOUT"
+	}
+}
+
 func main() {
 	if len(os.Args) < 2 {
 		fmt.Fprintln(os.Stderr, "usage: verifharness run|exec|suites …")
@@ -100,6 +183,11 @@ func main() {
 				continue
 			}
 			out := execLine(line)
+			if os.Getenv("VERIF_CHILD") != "" {
+				fmt.Fprintln(w, out) // child of an isolated suite: pass "out<TAB>obs" through unchanged
+				w.Flush()
+				continue
+			}
 			if i := strings.IndexByte(out, '\t'); i >= 0 && os.Getenv("VERIF_EXEC_OBS") != "" {
 				// replay mode: print the case line completed with the fresh observation, then the output
 				fmt.Fprintln(w, "CASE "+line+" "+out[i+1:])
@@ -133,11 +221,21 @@ func main() {
 		cw, iw := bufio.NewWriterSize(cf, 1<<20), bufio.NewWriterSize(inf, 1<<20)
 		n := 0
 		g := &Gen{Tier: *tier, Seed: *seed, R: NewRand(uint64(*seed)*0x9E3779B97F4A7C15 + hashString(*suite)), Counters: map[string]int{}}
+		var child *childExec
+		if s.Isolated && os.Getenv("VERIF_NO_ISOLATE") == "" {
+			child = &childExec{}
+			defer child.stop()
+		}
 		g.emit = func(line string) {
 			if *filter != "" && !strings.HasPrefix(line, *filter) {
 				return
 			}
-			out := execLine(line)
+			var out string
+			if child != nil {
+				out = child.exec(line)
+			} else {
+				out = execLine(line)
+			}
 			// an Exec may return "out<TAB>obs": obs (what the implementation produced, e.g. wire bytes with
 			// random mask keys) is appended to the case line so that the driver can examine it
 			if i := strings.IndexByte(out, '\t'); i >= 0 {
